@@ -223,9 +223,9 @@ def share_idiom(prog, chk, rid, fams=tuple(FAMILIES), floor=10):
                         c = b.get("cond")
                         if c is None or len(b["succ"]) != 2 or b["succ"][1] is None:
                             continue
-                        kt = fin.key(f, c)
-                        if any(kt == nm or kt == nm + "->ref" for nm in names):
-                            skip.add((b["succ"][1], 0))
+                        nt = fin.null_test(f, c)
+                        if nt is not None and any(nt[0] == nm or nt[0] == nm + "->ref" for nm in names):
+                            skip.add((b["succ"][nt[1]], 0))
                     if dpos_ is None:
                         good = C.paths_all_pass(f, w.pos, ipos | skip) and bool(ipos)
                     else:
